@@ -139,6 +139,123 @@ def run(check, mirror, tier):
     for L in Ls:
         mk("Eplus", L)
         mk("Eminus", L)
+    # --- the whole printing pipeline: Display::fmt and Jsonify::jsonify of FeelNumber ----------------------------------------------
+    # what they write must be the plain rendering of the number THEY WERE GIVEN: decQuadToString is applied to self.0 itself; any other
+    # decimal operation on the way (rescale, reduce, quantize ..) is outside the contract known here and yields an arbitrary decimal,
+    # whose text is arbitrary (NaN is one admissible instance) - a counterexample through it is confirmed or refuted by the native replay
+    # over a pool of exponents
+    check.bounds.append("display pipeline: <FeelNumber as Display>::fmt and <FeelNumber as Jsonify>::jsonify for coefficients of 1, 2, 17 and 34 digits, both exponent forms and the plain form")
+
+    dec_fns = sorted(set(re.findall(r"\bfn (dec_\w+)", mirror.read("feel-number/src/dec.rs"))) - {"dec_to_string"})
+    DEC_RE = re.compile(r"^(dec::)?(%s)$" % "|".join(dec_fns))
+
+    def mk_pipeline(entry, form, L):
+        oid = "pipeline/%s/%s/L%d" % (entry, form, L)
+
+        def setup(ex, st):
+            neg = z3.Bool(ex.fresh_name("neg"))
+            d1 = ex.fresh_int(st, "u8", "d1", constrain=False)
+            ex.assume(st, z3.And(d1.e >= 1, d1.e <= 9))
+            atoms = [("sign", neg), ("digits", d1.e, 1)]
+            inputs = dict(neg=neg, d1=d1.e, L=L, form=form)
+            coeff = d1.e
+            if L > 1:
+                rest = ex.fresh_int(st, "u128", "rest", constrain=False)
+                ex.assume(st, z3.And(rest.e >= 0, rest.e < 10 ** (L - 1)))
+                atoms += [("lit", "."), ("digits", rest.e, L - 1)]
+                inputs["rest"] = rest.e
+                coeff = d1.e * 10 ** (L - 1) + rest.e
+            adj = ex.fresh_int(st, "i32", "adjusted", constrain=False)
+            if form == "Eplus":
+                ex.assume(st, z3.And(adj.e >= L, adj.e <= 6144))
+            elif form == "Eminus":
+                ex.assume(st, z3.And(adj.e >= 7, adj.e <= 6176))
+            else:
+                ex.assume(st, adj.e == 0)
+            inputs["adjusted"] = adj.e
+            inputs["_coeff"] = coeff
+            inputs["_plain_atoms"] = atoms
+            me = Ref(ex.new_cell(st, Adt("struct", "FeelNumber", (Opaque("DecQuad", "self"),)), "self"))
+
+            def runner(ex, st):
+                for k in range(1, 5):
+                    lo, hi = (10 ** (k - 1) if k > 1 else 1), 10 ** k
+                    if form == "plain" and k > 1:
+                        break
+                    cond = z3.And(adj.e >= lo, adj.e < hi) if form != "plain" else z3.BoolVal(True)
+                    for st2 in ex.branch(st, cond):
+                        text = A.mk(atoms + ([("lit", "E+" if form == "Eplus" else "E-"), ("digits", adj.e, k)] if form != "plain" else []))
+
+                        def m_to_string(ex, st, callee, args, dest_ty, text=text):
+                            q = deref(ex, st, args[0])
+                            if isinstance(q, Opaque) and q.sort == "DecQuad" and q.e == "self":
+                                yield st, text
+                            else:
+                                st.log.append(("havoc", callee))
+                                yield st, A.mk([("lit", "NaN")])
+
+                        def m_dec_other(ex, st, callee, args, dest_ty):
+                            st.log.append(("havoc", callee))
+                            yield st, Opaque("DecQuad", "arbitrary")
+                        ex.models[:0] = [(re.compile(r"^(dec::)?dec_to_string$"), m_to_string), (DEC_RE, m_dec_other)]
+                        if entry == "jsonify":
+                            yield from ex.run("<FeelNumber as Jsonify>::jsonify", [me], st2)
+                        else:
+                            fc = ex.new_cell(st2, Opaque("Formatter", info=()), "fmt")
+                            for o in ex.run("<FeelNumber as Display>::fmt", [me, Ref(fc)], st2):
+                                if o.kind != "return":
+                                    yield o
+                                    continue
+                                pieces = o.st.cells[fc].info
+                                if len(pieces) == 1 and pieces[0][0] == "arg" and isinstance(pieces[0][2], StrV):
+                                    yield Outcome("return", o.st, pieces[0][2])
+                                elif all(p_[0] == "lit" for p_ in pieces):
+                                    yield Outcome("return", o.st, StrV("".join(p_[1] for p_ in pieces)))
+                                else:
+                                    raise MirUnsupported("Display wrote %r" % (pieces,))
+                        del ex.models[:2]
+            return runner, None, inputs
+
+        def post(ex, o, v):
+            got = A.atoms_of(o.value)
+            neg, coeff, adj = v["neg"], v["_coeff"], v["adjusted"]
+            if form == "Eplus":
+                want = [("sign", neg), ("digits", coeff, L), ("rep", "0", adj - (L - 1))]
+            elif form == "Eminus":
+                want = [("sign", neg), ("lit", "0."), ("rep", "0", adj - 1), ("digits", coeff, L)]
+            else:
+                want = v["_plain_atoms"]
+            v["_havoc"] = any(e[0] == "havoc" for e in o.st.log)
+            return [("what is written is the plain rendering of the number itself: optional minus, its digits, exactly the zeros its exponent calls for", same_atoms(got, want))]
+
+        def desc(m, inputs):
+            d = {k: model_value(m, x) for k, x in inputs.items() if not k.startswith("_")}
+            d["entry"] = entry
+            return d
+
+        def replay(i, rb):
+            pool = [i["adjusted"]] if i["form"] == "plain" else [i["adjusted"], L, 34, 35, 40, 100, 6144] if i["form"] == "Eplus" else [i["adjusted"], 7, 20, 40, 100, 6176]
+            last = (False, "")
+            for adj in dict.fromkeys(pool):
+                if i["form"] == "Eplus" and adj < L:
+                    continue
+                j = dict(i, adjusted=adj)
+                if i["form"] == "plain":
+                    coeff = str(i["d1"]) + (str(i.get("rest", 0)).rjust(L - 1, "0") if L > 1 else "")
+                    txt = ("-" if i["neg"] else "") + coeff[0] + ("." + coeff[1:] if L > 1 else "")
+                    _, out, _ = replay_call(rb, ["number_display", txt])
+                    last = (out.strip() != txt, "FeelNumber::from_str(%s).to_string() = %s" % (txt, out.strip()[:80]))
+                else:
+                    last = replay_number(j, rb)
+                if last[0]:
+                    return last
+            return last
+        jobs.append(lambda c: decide(c, crate, oid, setup, post, replay, rb, models=A.ATOM_MODELS, unwind=6, describe=desc, budget_s=600, min_paths=1, timeout_ms=20000, max_cex=2))
+
+    for entry in ("display", "jsonify"):
+        for form in ("Eplus", "Eminus", "plain"):
+            for L in (1, 2, 17, 34):
+                mk_pipeline(entry, form, L)
     # --- numeric literal -> the text handed to the decimal library (feel-evaluator build_numeric) ------------------------------------
     crate_fe = MirCrate(mirror, ["feel-evaluator", "feel"], overflow_checks=True)
     check.bounds.append("numeric literals: integer part of 1 or 5 digits, fraction of 1, 33, 34, 35 or 40 digits (digits symbolic)")
